@@ -849,4 +849,15 @@ theorem ofList_ok (k : Kind) (l : List Obj) (r : Seq) (h : Seq.ofList k l = .ok 
 theorem truthy_ofBool (b : Bool) : truthy (ofBool b) = b := by
   cases b <;> rfl
 
+/-- `some` is true exactly when the function is true on some tuple -/
+theorem truthy_firstTruthy (f : List Obj → Obj) (l : List (List Obj)) :
+    truthy (firstTruthy f l) = l.any (fun t => truthy (f t)) := by
+  induction l with
+  | nil => rfl
+  | cons x xs ih =>
+    by_cases hx : truthy (f x) = true
+    · simp [firstTruthy, hx]
+    · have hx' : truthy (f x) = false := by simpa using hx
+      simp [firstTruthy, hx', ih]
+
 end SlipVerif.Seq
